@@ -53,7 +53,7 @@ st = fl.settings; saved = dict(vars(st)); bad = []; log = []
 def level(lv):
     entry = dict(vars(st)); kw = {k: VAL[(k, "L%d" % lv)] for k in names[lv]}; left = inside = None
     try:
-        with st.context(**kw):
+        with (CMS[lv] if precreate else st.context(**kw)):
             inside = dict(vars(st))
             try:
                 if lv + 1 < depth: level(lv + 1)
@@ -65,6 +65,9 @@ def level(lv):
         log.append((lv, names[lv], entry, inside, left, dict(vars(st))))
 try:
     for k in KEYS: setattr(st, ATTR[k], VAL[(k, "base")])
+    # the context objects may be created before any of them is entered (a list handed to an ExitStack, a decorator): what is rolled
+    # back is the state at the time of ENTERING
+    CMS = {lv: st.context(**{k: VAL[(k, "L%d" % lv)] for k in names[lv]}) for lv in range(depth)} if precreate else {}
     try: level(0)
     except (Boom, BoomBase): pass
 finally:
@@ -162,7 +165,8 @@ def ob_nesting(depth, keys, assign_key, label):
         pre = eq_axioms(ops) + [z3.Not(z3.And(a, b)) for a, b in itertools.combinations(exc_at.values(), 2)]
         fm_unset = z3.Bool("base!factory_manager!unset")
         as_base = z3.Bool("raise!as-base-exception")
-        ins = {str(v): SymBool(v) for v in list(pres.values()) + list(exc_at.values()) + [fm_unset, as_base]}
+        pre_cm = z3.Bool("contexts!created-before-entering")
+        ins = {str(v): SymBool(v) for v in list(pres.values()) + list(exc_at.values()) + [fm_unset, as_base, pre_cm]}
         for o in ops:
             if not z3.is_true(o.truthy):
                 ins[str(o.truthy)] = SymBool(o.truthy)
@@ -201,7 +205,7 @@ def ob_nesting(depth, keys, assign_key, label):
             if bool(v[str(fm_unset)]):
                 val[("factory_manager", "base")] = "None"     # the lazily initialised default: no factory manager created yet
             lines.append("VAL = {" + ", ".join(f"{kt!r}: {src}" for kt, src in val.items()) + "}")
-            lines.append(f"names = {names!r}; raises = {raises!r}; depth = {depth}; assign_key = {assign_key!r}; KEYS = {KEYS!r}; as_base = {bool(v[str(as_base)])!r}")
+            lines.append(f"names = {names!r}; raises = {raises!r}; depth = {depth}; assign_key = {assign_key!r}; KEYS = {KEYS!r}; as_base = {bool(v[str(as_base)])!r}; precreate = {bool(v[str(pre_cm)])!r}")
             lines.append(REPLAY_PROGRAM)
             lines.append(f"verdict(bool(bad), {label!r} + ': ' + '; '.join(bad))")
             return "\n".join(lines)
@@ -219,13 +223,15 @@ def ob_nesting(depth, keys, assign_key, label):
                 names = {lv: [k for k in keys if bool(SymBool(pres[(lv, k)]))] for lv in range(depth)}
                 raises = {lv: bool(SymBool(exc_at[lv])) for lv in range(depth)}
                 base_exc = any(raises.values()) and bool(SymBool(as_base))
+                precreate = depth > 1 and bool(SymBool(pre_cm))
+                cms = {lv: st.context(**{k: req[(lv, k)] for k in names[lv]}) for lv in range(depth)} if precreate else {}
 
                 def level(lv):
                     entry = dict(vars(st))
                     kw = {k: req[(lv, k)] for k in names[lv]}
                     left = None
                     try:
-                        with st.context(**kw):
+                        with (cms[lv] if precreate else st.context(**kw)):
                             inside = dict(vars(st))
                             try:
                                 if lv + 1 < depth:
